@@ -1039,7 +1039,9 @@ class UpnpXmlSerializer:
         if state_variable.allowed_values:
             value_list_el = ET.SubElement(state_var_el, "allowedValueList")
             for allowed_value in state_variable.allowed_values:
-                ET.SubElement(value_list_el, "allowedValue").text = str(allowed_value)
+                ET.SubElement(
+                    value_list_el, "allowedValue"
+                ).text = state_variable.coerce_upnp(allowed_value)
 
         if (
             state_variable.min_value is not None
@@ -1047,18 +1049,18 @@ class UpnpXmlSerializer:
         ):
             value_range_el = ET.SubElement(state_var_el, "allowedValueRange")
             if state_variable.min_value is not None:
-                ET.SubElement(value_range_el, "minimum").text = str(
-                    state_variable.min_value
-                )
+                ET.SubElement(
+                    value_range_el, "minimum"
+                ).text = state_variable.coerce_upnp(state_variable.min_value)
             if state_variable.max_value is not None:
-                ET.SubElement(value_range_el, "maximum").text = str(
-                    state_variable.max_value
-                )
+                ET.SubElement(
+                    value_range_el, "maximum"
+                ).text = state_variable.coerce_upnp(state_variable.max_value)
 
         if state_variable.default_value is not None:
-            ET.SubElement(state_var_el, "defaultValue").text = str(
-                state_variable.default_value
-            )
+            ET.SubElement(
+                state_var_el, "defaultValue"
+            ).text = state_variable.coerce_upnp(state_variable.default_value)
 
         return state_var_el
 
